@@ -14,7 +14,7 @@ RULE = ("MC: Nonce.tla, the nonce cache design (inclusive expiry, cache kept acr
         "into every HMAC authenticator; every request is validated by TLC (NonceTrace): a request the statement forces to be rejected "
         "must get 401 and add nothing to the queue; at most one of a concurrent burst is honoured. distinct_nontrivial = validated events.")
 
-KINDS_ALL = ["noop", "unrelated", "hmac_changed", "header_changed", "route_removed_readded", "widen", "narrow", "mgmt"]
+KINDS_ALL = ["noop", "unrelated", "hmac_changed", "header_changed", "route_removed_readded", "auth_removed_readded", "widen", "narrow", "mgmt"]
 RE_SCHED = re.compile(r'^<<"SCHED", "(.*)">>$')
 
 
@@ -105,7 +105,7 @@ def triage(ctx, res, sf):
             if "burst" in sig:
                 # concurrent bursts are not deterministic: repeat a few times before giving up
                 hit = False
-                for _ in range(5):
+                for _ in range(30):
                     vf.hkv(["l1-nonce", "-sched", one, "-out", out, "-scratch", ctx.shm])
                     rr = vf.tv_run(ctx, [out], module="NonceTrace", name="tv-repro")[0]
                     if sig.split("/")[3] in {c for (_, _, c) in rr["fails"]}:
@@ -146,7 +146,7 @@ def run(ctx):
     ctx.assumptions += ["signatures are valid by construction (forgeries are C08); nonces are unique per schedule",
                         "a same-nonce request with ANOTHER timestamp that arrives after the first one's window closed is a new request (DESIGN.md C09)",
                         "--watch is the same reloadConfig path as SIGHUP; the file watcher itself is not exercised",
-                        "concurrent bursts are 4 goroutines released together (sampled interleavings)"]
+                        "concurrent bursts are 8 goroutines released together with a 96 KiB body (sampled interleavings)"]
     vf.write_evidence(ctx, "model_checking", RULE, exhaustive=False)
 
 
